@@ -44,7 +44,8 @@ def run(chk, orch):
         variants = {}
         for k in range(np_):
             spec = workload.random_spec(chk.rng)
-            spec.update(paralogs=chk.rng.choice([1, 2, 2]), n_chr=chk.rng.choice([2, 3, 4]), secondary_seq=1,
+            spec.update(paralogs=chk.rng.choice([1, 2, 2]), n_chr=chk.rng.choice([2, 3, 4]), secondary_seq=1, truncate=1,
+                        intergenic_multi=chk.rng.choice([0, 1, 2]),
                         dup_records=chk.rng.choice([0, 1]), n_exp=1, groups=0, equal_len=0)
             opts = {"data_type": chk.rng.choice(["nanopore", "pacbio_ccs"]), "annotated": True,
                     "transcript_quant": chk.rng.choice(["unique_only", "with_ambiguous", "all"]),
@@ -62,7 +63,7 @@ def run(chk, orch):
                         o["bam_order"] = chk.rng.randrange(1, 9)
                 cell = common.random_cell(chk.rng) if v > 0 else dict(common.GOLDEN_CELL)
                 cell["hashseed"] = 0
-                a = common.job_args(s2, o, cell, oracles=["counts"])
+                a = common.job_args(s2, o, cell, oracles=["counts", "ties"])
                 orch.submit(0, "scenarios:pipeline", a, tag=("p", k, v))
                 variants[(k, v)] = (s2, o, cell, a)
         res = {}
@@ -112,6 +113,13 @@ def run(chk, orch):
             if isinstance(probs, dict):
                 chk.harness_error("oracle crashed: %s" % probs.get("error"))
                 probs = []
+            tp = (r.get("oracles") or {}).get("ties") or []
+            if isinstance(tp, dict):
+                chk.harness_error("oracle crashed: %s" % tp.get("error"))
+                tp = []
+            if tp:
+                chk.violation("ties", {"kind": re.sub(r"\br\d+\w*|\d+|G\d+(\.t\d+)?", "N", tp[0].split(": ", 1)[-1])[:80]}, " || ".join(tp[:3]),
+                              {"engine": "pipeline", "oracle": "self", "run": {"hashseed": 0, "fn": "scenarios:pipeline", "args": a}})
             per_read = [p for p in probs if "contributes" in p]
             if per_read:
                 kinds = set(p.split(": ", 1)[-1].split(":")[0] for p in per_read)
